@@ -33,7 +33,7 @@ OUTSIDE = ["validity of real gzip byte streams", "compression level (ignored by 
 
 # two names that share a stem and differ only in the last extension, one name with a colon, one exempt from compression
 NAMES = [("info", "application/json"), ("mesh/l.frag0:0", "application/octet-stream"), ("mesh/l.frag1:0", "application/octet-stream")]
-CHUNKS = [("k0", (0, 2, 0, 2, 0, 1)), ("k0", (2, 4, 0, 2, 0, 1))]
+CHUNKS = [("8_8_40", (0, 2, 0, 2, 0, 1)), ("k0", (2, 4, 0, 2, 0, 1))]      # scale keys may contain underscores (e.g. resolution triples)
 NO_COMPRESS = {"application/json", "image/jpeg", "image/png"}
 
 
